@@ -2,14 +2,15 @@ import CsVerif.Model.Basic
 import CsVerif.Gen.C16Unicode
 /-
 C16 — raw HTTP parsing (dissect/cobaltstrike/c2.py `parse_raw_http`, lines 199-240, as repaired by
-ca5bfc1 (`urlsplit`) and cda9ed0 (empty header lines skipped)).
+ca5bfc1 (`urlsplit`), cda9ed0 (empty header lines skipped) and 5b05344 (parameters unquoted through
+latin-1, so `%80`..`%FF` survive)).
 
 Everything is over `Bytes`.  CPython built-ins are modelled, not verified (see the harness streams
 that exercise each of them): `bytes.partition/split/rstrip/upper/startswith`, `bytes.decode` (UTF-8
-strict, ASCII ignore), `int(str)`, `urllib.parse.urlsplit` / `parse_qsl` of Python 3.12.1 on a bytes
-argument, `ipaddress.ip_address` (validity of a bracketed IPv6 host), `dict`.
+strict, ASCII ignore), `int(str)`, `urllib.parse.urlsplit` (bytes argument) / `parse_qsl` (str argument,
+`encoding="latin-1"`) of Python 3.12.1, `ipaddress.ip_address` (validity of a bracketed IPv6 host), `dict`.
 Every raising primitive is an explicit `Except` branch; the only exception class that can come out
-is `ValueError` (`UnicodeDecodeError` / `UnicodeEncodeError` are subclasses).
+is `ValueError` (`UnicodeDecodeError` is a subclass).
 -/
 namespace C16
 
@@ -175,11 +176,8 @@ def decimalValueN (ds : List Nat) : Nat := ds.foldl (fun a d => a * 10 + (d - 48
 
 /-- `PyLong_FromString(s, base=10)` on the transformed ASCII text: optional surrounding ASCII
 whitespace, optional sign, digits with single underscores strictly between digits, at most
-`maxStrDigits` digits. -/
-def parseDecimal (s : List Nat) : Py Int :=
-  let s1 := s.dropWhile isAsciiSpaceN
-  let neg := s1.head? == some 45
-  let s2 := if s1.head? == some 43 || s1.head? == some 45 then s1.drop 1 else s1
+`maxStrDigits` digits.  (`parseDecimalBody`: after whitespace and sign.) -/
+def parseDecimalBody (neg : Bool) (s2 : List Nat) : Py Int :=
   let run := s2.takeWhile isDigitOrUnderscoreN
   let rest := s2.dropWhile isDigitOrUnderscoreN
   let ds := run.filter (· != 95)
@@ -187,6 +185,11 @@ def parseDecimal (s : List Nat) : Py Int :=
   else if ds.isEmpty || ds.length > maxStrDigits then .error .valueError
   else if !(rest.dropWhile isAsciiSpaceN).isEmpty then .error .valueError
   else .ok (if neg then -(decimalValueN ds : Int) else (decimalValueN ds : Int))
+
+def parseDecimal (s : List Nat) : Py Int :=
+  let s1 := s.dropWhile isAsciiSpaceN
+  parseDecimalBody (s1.head? == some 45)
+    (if s1.head? == some 43 || s1.head? == some 45 then s1.drop 1 else s1)
 
 /-- `int(str)` on code points -/
 def pyIntOfStr (cps : List Nat) : Py Int := parseDecimal (cps.map toAsciiDigitSpace)
@@ -327,7 +330,7 @@ def urlsplit (url0 : Bytes) : Py SplitResult :=
     let (path, query) := partitionByte 63 url4
     .ok { scheme, netloc, path, query, fragment }
 
-/-! ### urllib.parse.parse_qsl(query) with default arguments on ASCII bytes -/
+/-! ### urllib.parse.parse_qsl(query.decode("ascii"), encoding="latin-1"), re-encoded as latin-1 -/
 
 def hexVal (b : UInt8) : UInt8 :=
   if isDigit b then b - 48 else if 65 ≤ b ∧ b ≤ 70 then b - 55 else b - 87
@@ -343,41 +346,22 @@ def unquote : Bytes → Bytes
 
 def plusToSpace (s : Bytes) : Bytes := s.map fun b => if b = 43 then 32 else b
 
-/-- `_coerce_result(unquote(x.replace('+', ' '), 'utf-8', 'replace'))`: the unquoted bytes are decoded
-as UTF-8 with replacement and re-encoded as ASCII *strictly*, which succeeds exactly when no
-unquoted byte is ≥ 0x80 (then the text is those bytes) and raises UnicodeEncodeError otherwise. -/
-def unquoteField (s : Bytes) : Py Bytes :=
-  let u := unquote (plusToSpace s)
-  if u.all (· < 0x80) then .ok u else .error .valueError
+/-- `unquote(x.replace('+', ' '), encoding='latin-1').encode('latin-1')`: every unquoted byte comes
+back unchanged (latin-1 maps bytes and code points < 256 one to one), so this cannot raise. -/
+def unquoteField (s : Bytes) : Bytes := unquote (plusToSpace s)
 
 /-- one `name=value` field: `none` = dropped (empty field, no `=`, or blank value) -/
-def qslField (nv : Bytes) : Py (Option (Bytes × Bytes)) :=
-  if nv.isEmpty then .ok none
+def qslField (nv : Bytes) : Option (Bytes × Bytes) :=
+  if nv.isEmpty then none
   else match cutAt 61 nv with
-    | none => .ok none
-    | some (n, v) =>
-      if v.isEmpty then .ok none
-      else
-        match unquoteField n with
-        | .error e => .error e
-        | .ok name =>
-          match unquoteField v with
-          | .error e => .error e
-          | .ok value => .ok (some (name, value))
+    | none => none
+    | some (n, v) => if v.isEmpty then none else some (unquoteField n, unquoteField v)
 
-def qslFields : List Bytes → Py (List (Bytes × Bytes))
-  | [] => .ok []
-  | f :: fs =>
-    match qslField f with
-    | .error e => .error e
-    | .ok r =>
-      match qslFields fs with
-      | .error e => .error e
-      | .ok rs => .ok (match r with | some p => p :: rs | none => rs)
-
-/-- `parse_qsl(qs)` (`keep_blank_values=False, strict_parsing=False, separator='&'`) -/
-def parseQsl (qs : Bytes) : Py (List (Bytes × Bytes)) :=
-  if qs.isEmpty then .ok [] else qslFields (splitByte 38 qs)
+/-- `[(k.encode("latin-1"), v.encode("latin-1")) for k, v in parse_qsl(qs.decode("ascii"),
+encoding="latin-1")]` for an ASCII query (`keep_blank_values=False, strict_parsing=False,
+separator='&'`); total. -/
+def parseQsl (qs : Bytes) : List (Bytes × Bytes) :=
+  if qs.isEmpty then [] else (splitByte 38 qs).filterMap qslField
 
 /-! ### parse_raw_http -/
 
@@ -415,10 +399,7 @@ def parseRawHttp (data : Bytes) : Py Msg :=
     | [method, uri, _version] =>
       match urlsplit (asciiIgnore uri) with
       | .error e => .error e
-      | .ok r =>
-        match parseQsl r.query with
-        | .error e => .error e
-        | .ok ps => .ok (.request method r.path (dictOfList ps) headers body)
+      | .ok r => .ok (.request method r.path (dictOfList (parseQsl r.query)) headers body)
     | _ => .error .valueError
 
 /-! ### Spec side: rendering -/
@@ -452,5 +433,64 @@ def renderRequest (version method path : Bytes) (params headers : List (Bytes ×
 
 def renderResponse (version statusDigits reason : Bytes) (headers : List (Bytes × Bytes)) (body : Bytes) : Bytes :=
   version ++ 32 :: statusDigits ++ 32 :: reason ++ renderHeaders headers ++ CRLFCRLF ++ body
+
+/-! ### Spec side: well-formedness predicates used by the theorems -/
+
+/-- `sep in s` (contiguous sub-sequence) -/
+def containsSub (sep : Bytes) : Bytes → Bool
+  | [] => sep.isEmpty
+  | b :: rest => sep.isPrefixOf (b :: rest) || containsSub sep rest
+
+def noWs (s : Bytes) : Bool := s.all fun b => !isWs b
+
+/-- a non-empty byte string without ASCII whitespace -/
+def isToken (s : Bytes) : Bool := !s.isEmpty && noWs s
+
+def noCR (s : Bytes) : Bool := s.all (· != 13)
+
+/-- ASCII, no whitespace, not `?`, not `#` (control characters, `;`, `:`, `@`, `[`, `%` … are allowed) -/
+def isPathByte (b : UInt8) : Bool := b < 0x80 && !isWs b && b != 63 && b != 35
+
+/-- starts with `/`, does not start with `//` (that would be a netloc), only path bytes -/
+def wellFormedPath (p : Bytes) : Bool :=
+  p.head? == some 47 && (p.drop 1).head? != some 47 && p.all isPathByte
+
+/-- key without `": "`, neither key nor value contains a CR byte (LF alone is allowed) -/
+def wellFormedHeader (h : Bytes × Bytes) : Bool :=
+  !containsSub colonSpace h.1 && noCR h.1 && noCR h.2
+
+/-- value of a string of ASCII digits -/
+def decimalValue (ds : Bytes) : Nat := ds.foldl (fun a d => a * 10 + (d.toNat - 48)) 0
+
+/-- decimal digits of a natural number (no leading zeros; `0` ↦ `"0"`) -/
+def natDigits (n : Nat) : Bytes :=
+  if n < 10 then [UInt8.ofNat (48 + n)] else natDigits (n / 10) ++ [UInt8.ofNat (48 + n % 10)]
+termination_by n
+decreasing_by omega
+
+/-- keys in order of first occurrence -/
+def firstKeys : List Bytes → List Bytes
+  | [] => []
+  | k :: ks => k :: (firstKeys ks).filter (· != k)
+
+structure WellFormedHeaders (hs : List (Bytes × Bytes)) : Prop where
+  each : ∀ h ∈ hs, wellFormedHeader h = true
+  distinct : (hs.map Prod.fst).Nodup
+
+structure WellFormedReq (version method path : Bytes) (params headers : List (Bytes × Bytes)) : Prop where
+  versionTok : isToken version = true
+  methodTok : isToken method = true
+  notHttp : startsWithHTTP method = false
+  pathOk : wellFormedPath path = true
+  paramKeys : (params.map Prod.fst).Nodup
+  paramVals : ∀ p ∈ params, p.2 ≠ []
+  headersOk : WellFormedHeaders headers
+
+structure WellFormedResp (version statusDigits reason : Bytes) (headers : List (Bytes × Bytes)) : Prop where
+  versionTok : isToken version = true
+  isHttp : startsWithHTTP version = true
+  digitsOk : statusDigits ≠ [] ∧ statusDigits.all isDigit = true ∧ statusDigits.length ≤ maxStrDigits
+  reasonTok : isToken reason = true
+  headersOk : WellFormedHeaders headers
 
 end C16
